@@ -593,6 +593,13 @@ int dns_decode(char *buf, size_t buflen, struct query *q, qr_t qr, char *packet,
 			rv = offset;
 		}
 		else if (type == T_TXT && buf) {
+			/* The strings of a TXT answer hold the payload in
+			   encoded form, after one letter for the codec: the
+			   4096 bytes that rdata[] takes from a NULL answer
+			   are 1 + 6554 characters in Base32. Without room
+			   for them the whole answer would be lost. */
+			char txt[8*1024];
+
 			/* Assume that first answer is what we wanted */
 			readname(packet, packetlen, &data, name, sizeof(name));
 			CHECKLEN(10);
@@ -602,11 +609,10 @@ int dns_decode(char *buf, size_t buflen, struct query *q, qr_t qr, char *packet,
 			readshort(packet, &data, &rlen);
 			CHECKLEN(rlen);
 
-			rv = readtxtbin(packet, &data, rlen, rdata,
-				        sizeof(rdata));
+			rv = readtxtbin(packet, &data, rlen, txt, sizeof(txt));
 			if (rv >= 1) {
 				rv = MIN(rv, buflen);
-				memcpy(buf, rdata, rv);
+				memcpy(buf, txt, rv);
 			} else {
 				rv = 0;
 			}
